@@ -1976,26 +1976,26 @@ theorem perMinute_inv (fuel : Nat) (sym : Nat) (real : Candle) (t0 : Int) (rest 
         have := hts 0 (by simp)
         simpa using this
       have key : ∀ cur : Candle, cur.ts = c.ts →
-          (match matchLoop u fuel e sym cur cands (chunkReselect sym real more) true with
+          (match matchLoop u fuel e sym cur cands (chunkReselect sym real c more) true with
            | (e1, cur') =>
              if e1.err.isSome then e1 else
              simulateChunk.perMinute u fuel sym real more (some c) (setCurrentPrice (addCandle e1 sym 1 c) sym cur'.c)
-               (if e1.log.length = e.log.length then cands else chunkReselect sym real more e1 cur')).err.isSome ∨
-          (LInv (match matchLoop u fuel e sym cur cands (chunkReselect sym real more) true with
+               (if e1.log.length = e.log.length then cands else chunkReselect sym real c more e1 cur')).err.isSome ∨
+          (LInv (match matchLoop u fuel e sym cur cands (chunkReselect sym real c more) true with
            | (e1, cur') =>
              if e1.err.isSome then e1 else
              simulateChunk.perMinute u fuel sym real more (some c) (setCurrentPrice (addCandle e1 sym 1 c) sym cur'.c)
-               (if e1.log.length = e.log.length then cands else chunkReselect sym real more e1 cur')) sym t0 (Q ++ c :: more) ∧
-           (match matchLoop u fuel e sym cur cands (chunkReselect sym real more) true with
+               (if e1.log.length = e.log.length then cands else chunkReselect sym real c more e1 cur')) sym t0 (Q ++ c :: more) ∧
+           (match matchLoop u fuel e sym cur cands (chunkReselect sym real c more) true with
            | (e1, cur') =>
              if e1.err.isSome then e1 else
              simulateChunk.perMinute u fuel sym real more (some c) (setCurrentPrice (addCandle e1 sym 1 c) sym cur'.c)
-               (if e1.log.length = e.log.length then cands else chunkReselect sym real more e1 cur')).cfg = e.cfg) := by
+               (if e1.log.length = e.log.length then cands else chunkReselect sym real c more e1 cur')).cfg = e.cfg) := by
         intro cur hcur
-        have h := matchLoop_keeps_fpre u fuel e sym cur cands (chunkReselect sym real more) true t0 Q hal
+        have h := matchLoop_keeps_fpre u fuel e sym cur cands (chunkReselect sym real c more) true t0 Q hal
           (FPre.fresh hi (by rw [hcur]; exact hcts))
         revert h
-        generalize matchLoop u fuel e sym cur cands (chunkReselect sym real more) true = p
+        generalize matchLoop u fuel e sym cur cands (chunkReselect sym real c more) true = p
         intro h
         obtain ⟨e1, c'⟩ := p
         dsimp only at h ⊢
@@ -2037,7 +2037,7 @@ theorem perMinute_inv (fuel : Nat) (sym : Nat) (real : Candle) (t0 : Int) (rest 
               rw [hsh3] at hpre
               exact inv_of_pre_forming m (Q ++ [c]) _ (hal.2 m hm').1 hnb hpre
             have hlen : (Q ++ [c]).length = Q.length + 1 := by simp
-            have := ih (some c) e3 (if e1.log.length = e.log.length then cands else chunkReselect sym real more e1 c') (Q ++ [c])
+            have := ih (some c) e3 (if e1.log.length = e.log.length then cands else chunkReselect sym real c more e1 c') (Q ++ [c])
               (by rw [hcfg3]; exact hal) hi3 hmore
               (by
                 intro j hj
@@ -2232,27 +2232,27 @@ theorem simulateChunk_inv (fuel : Nat) (e : Engine M) (sym : Nat) (cs : List Can
       -- the per-minute loop (only when some order lies inside the chunk's range)
       have h1 : (if (executingOrders e sym real).length > 0 then
             simulateChunk.perMinute u fuel sym real cs none e
-              (if (executingOrders e sym real).length > 1 then sortExecutionOrders e (executingOrders e sym real) cs else executingOrders e sym real)
+              (if (executingOrders e sym real).length > 1 then sortExecutionOrders e (executingOrders e sym real) (fixChunk none cs) else executingOrders e sym real)
             else e).err.isSome ∨
           (((storeOf (if (executingOrders e sym real).length > 0 then
             simulateChunk.perMinute u fuel sym real cs none e
-              (if (executingOrders e sym real).length > 1 then sortExecutionOrders e (executingOrders e sym real) cs else executingOrders e sym real)
+              (if (executingOrders e sym real).length > 1 then sortExecutionOrders e (executingOrders e sym real) (fixChunk none cs) else executingOrders e sym real)
             else e) sym).short = P ∨
             (storeOf (if (executingOrders e sym real).length > 0 then
             simulateChunk.perMinute u fuel sym real cs none e
-              (if (executingOrders e sym real).length > 1 then sortExecutionOrders e (executingOrders e sym real) cs else executingOrders e sym real)
+              (if (executingOrders e sym real).length > 1 then sortExecutionOrders e (executingOrders e sym real) (fixChunk none cs) else executingOrders e sym real)
             else e) sym).short = P ++ cs) ∧
            sym < (if (executingOrders e sym real).length > 0 then
             simulateChunk.perMinute u fuel sym real cs none e
-              (if (executingOrders e sym real).length > 1 then sortExecutionOrders e (executingOrders e sym real) cs else executingOrders e sym real)
+              (if (executingOrders e sym real).length > 1 then sortExecutionOrders e (executingOrders e sym real) (fixChunk none cs) else executingOrders e sym real)
             else e).stores.length ∧
            (∀ m ∈ tfsRaw e.cfg sym, PreInv m (P ++ cs) (longOf (storeOf (if (executingOrders e sym real).length > 0 then
             simulateChunk.perMinute u fuel sym real cs none e
-              (if (executingOrders e sym real).length > 1 then sortExecutionOrders e (executingOrders e sym real) cs else executingOrders e sym real)
+              (if (executingOrders e sym real).length > 1 then sortExecutionOrders e (executingOrders e sym real) (fixChunk none cs) else executingOrders e sym real)
             else e) sym) m)) ∧
            (if (executingOrders e sym real).length > 0 then
             simulateChunk.perMinute u fuel sym real cs none e
-              (if (executingOrders e sym real).length > 1 then sortExecutionOrders e (executingOrders e sym real) cs else executingOrders e sym real)
+              (if (executingOrders e sym real).length > 1 then sortExecutionOrders e (executingOrders e sym real) (fixChunk none cs) else executingOrders e sym real)
             else e).cfg = e.cfg) := by
         split
         · rcases perMinute_inv u fuel sym real t0 cs none e _ P hal hi hne hts hwin with herr | ⟨hl, hc⟩
@@ -2266,7 +2266,7 @@ theorem simulateChunk_inv (fuel : Nat) (e : Engine M) (sym : Nat) (cs : List Can
       revert h1
       generalize (if (executingOrders e sym real).length > 0 then
             simulateChunk.perMinute u fuel sym real cs none e
-              (if (executingOrders e sym real).length > 1 then sortExecutionOrders e (executingOrders e sym real) cs else executingOrders e sym real)
+              (if (executingOrders e sym real).length > 1 then sortExecutionOrders e (executingOrders e sym real) (fixChunk none cs) else executingOrders e sym real)
             else e) = e1
       intro h1
       split
